@@ -222,6 +222,8 @@ def run(ck: Check):
                "model": model[1000] if len(cases) > 1000 else model[0]})
     from scale import big_rmslice
     big_rmslice(ck)
+    from boundaries import rmslice_at_protected_counts
+    rmslice_at_protected_counts(ck, ck.tier == "quick")
     return ck.finish(
         level="proof", rule=RULE,
         assumptions=["aliasing/object identity of copy() is outside the functional model; it is "
